@@ -83,9 +83,11 @@ _Bool __CPROVER_uninterpreted_poweq(uint64_t, uint64_t, uint64_t, uint64_t, uint
 #define LL2C_UMULOVF64(x, y) __CPROVER_uninterpreted_umulovf64((uint64_t)(x), (uint64_t)(y))
 #define LL2C_UDIV64(x, y) __CPROVER_uninterpreted_udiv64((uint64_t)(x), (uint64_t)(y))
 #define LL2C_UREM64(x, y) __CPROVER_uninterpreted_urem64((uint64_t)(x), (uint64_t)(y))
+#ifdef LL2C_UF_SMUL   /* signed 64-bit multiplication as an uninterpreted function: only for obligations whose lemmas speak about it */
 int64_t __CPROVER_uninterpreted_smul64(int64_t, int64_t); _Bool __CPROVER_uninterpreted_smulovf64(int64_t, int64_t);
 #define LL2C_SMUL64(x, y) __CPROVER_uninterpreted_smul64((int64_t)(x), (int64_t)(y))
 #define LL2C_SMULOVF64(x, y) __CPROVER_uninterpreted_smulovf64((int64_t)(x), (int64_t)(y))
+#endif
 uint64_t __CPROVER_uninterpreted_spow(uint64_t, uint64_t); _Bool __CPROVER_uninterpreted_spowfits(uint64_t, uint64_t);
 _Bool __CPROVER_uninterpreted_spoweq(uint64_t, uint64_t, uint64_t, uint64_t, uint64_t);
 #define SPEC_spow(a, b) __CPROVER_uninterpreted_spow((uint64_t)(a), (uint64_t)(b))
